@@ -157,7 +157,11 @@ def run_driver(profile, suite, out, seed, n, tier="quick", extra=(), timeout=120
     hang = None
     if os.path.exists(out + ".hang"):
         hang = [json.loads(x) for x in open(out + ".hang") if x.strip()]
-    if r.returncode not in (0, 3):
+    if r.returncode == 101:
+        # the driver itself panicked outside a recorded call: on the unchanged tree this never happens; it means that a library
+        # call used to SHAPE an operand (decode a table entry, build a representative) misbehaved - reported as data, with what was recorded so far
+        hang = (hang or []) + [{"op": "driver-abort", "suite": suite, "panic": True, "stderr": r.stdout[-1500:]}]
+    elif r.returncode not in (0, 3):
         raise ToolError(f"driver {suite} failed ({r.returncode}):\n{r.stdout[-2000:]}")
     return hang
 
